@@ -120,6 +120,10 @@ func funcSubStr(kv KVPair, args []Expression, ctx *ExecuteCtx) (any, error) {
 		return "", nil
 	}
 	length = min(length, vlen-start)
+	if start < 0 || length < start {
+		// nothing lies between these positions
+		return "", nil
+	}
 	return val[start:length], nil
 }
 
